@@ -426,8 +426,9 @@ def make_coords(shape, spacing, z=0):
 def dict_to_array(schema, inval):
     if isinstance(inval, dict):
         keys = sorted(list(inval.keys()))
+        # (a scalar coordinate -- one plane of a stack -- labels no axis)
         dims = {coord: sorted(list(schema.coords[coord].values))
-                for coord in schema.coords}
+                for coord in schema.coords if schema.coords[coord].ndim > 0}
         # a dictionary of per-channel values belongs to the illumination axis,
         # also when its keys happen to label some pixels as well
         for name in sorted(dims, key=lambda name: name != 'illumination'):
